@@ -7,12 +7,15 @@
     (inside the quotes `q` only ever follows a backslash), so `rfind(' b' + q, 0, len - 1)` of the nested-text converter
     finds the start of the token whatever the bytes are - a value such as b" b'x" included;
   * `C09_repr_bytes_edges` — the token is not empty and has no white space at either end (`strip()` leaves it alone);
-  * `C09_repr_bytes_ok`    — hence `ReprOK env ev (.bytes b)` for every environment that prints character values with
-    `reprBytes` and every evaluator that extends `evalBytesLiteral` (`C09_bytes_repr_roundtrip` gives `eval_repr`).  The two
-    hypotheses about the TUPLE token of a flag-table element stay (`FlagTokOK`): they are read only when a character value
-    sits at a flag-table element, which no decoder produces, but `ReprOK` carries them for every value;
-  * `C09_flat_text_to_flat_bytes`, `C09_nested_text_to_flat_bytes` — the two converter theorems with `ReprOK` asked of the
-    values that are NOT character values only.
+  * `C09_repr_bytes_core`  — hence `ReprCore env ev (.bytes b)` (the part of `ReprOK` the nested text reads; Lemmas/TextBasic.lean)
+    for every environment that prints character values with `reprBytes` and every evaluator that extends `evalBytesLiteral`
+    (`C09_bytes_repr_roundtrip` gives `eval_repr`), with NO hypothesis left about the token;
+    `C09_repr_bytes_ok` — `ReprOK env ev (.bytes b)`: the two hypotheses about the TUPLE token of a flag-table element stay
+    (`FlagTokOK`): the flat text reads them only when a character value sits at a flag-table element, which no decoder
+    produces, but `ReprOK` carries them for every value;
+  * `C09_nested_text_to_flat_bytes_partial` — the nested text converter theorem with the token hypotheses (`ReprCore`) asked
+    of the values that are NOT character values only, nothing about character values;
+    `C09_flat_text_to_flat_bytes` — the same for the flat text, plus `FlagTokOK` of the character values.
 -/
 import BufrModel.Props.C09Text
 import BufrModel.Props.C09Cli
@@ -198,25 +201,53 @@ theorem C09_flat_text_to_flat_bytes (env : TextEnv) (ev : Line → Option PyLit)
   C09_flat_text_to_flat_values env ev outs hdr rest hhdr
     (fun o ho v hv => C09_repr_ok_of_bytes_model env ev hrepr hev v (hother o ho v hv) (hflag o ho v hv)) hlen
 
-/-- **nested text -> flat with character values rendered by `reprBytes`** (`_partial` exactly as
-    `C09_nested_text_to_flat_partial`: the side conditions on the wired tree are hypotheses) -/
+/-- **`ReprCore` for a character value with no hypothesis about its token** -/
+theorem C09_repr_bytes_core (env : TextEnv) (ev : Line → Option PyLit)
+    (hrepr : ∀ b, env.reprV (.bytes b) = reprBytes b)
+    (hev : ∀ tok b, evalBytesLiteral tok = some b → ev tok = some (.val (.bytes b)))
+    (b : List UInt8) : ReprCore env ev (.bytes b) where
+  eval_repr := by rw [hrepr]; exact hev _ _ (C09_bytes_repr_roundtrip b)
+  edges := by rw [hrepr]; exact C09_repr_bytes_edges b
+  bytes_tok := by intro b' _; rw [hrepr]; exact C09_repr_bytes_tok b
+  plain_tok := by intro h; exact absurd rfl (h b)
+
+theorem C09_repr_core_of_bytes_model (env : TextEnv) (ev : Line → Option PyLit)
+    (hrepr : ∀ b, env.reprV (.bytes b) = reprBytes b)
+    (hev : ∀ tok b, evalBytesLiteral tok = some b → ev tok = some (.val (.bytes b)))
+    (v : Val) (hother : (∀ b, v ≠ .bytes b) → ReprCore env ev v) : ReprCore env ev v := by
+  cases v with
+  | bytes b => exact C09_repr_bytes_core env ev hrepr hev b
+  | missing => exact hother (by intro b h; cases h)
+  | int i => exact hother (by intro b h; cases h)
+  | num m s => exact hother (by intro b h; cases h)
+
+/-- **nested text -> flat with character values rendered by `reprBytes`**: nothing is assumed of the tokens of character
+    values (`_partial` exactly as `C09_nested_text_to_flat_partial`: the side conditions on the wired tree are hypotheses) -/
 theorem C09_nested_text_to_flat_bytes_partial (env : TextEnv) (ev : Line → Option PyLit) (t : List Desc)
     (subs : List TextSubset) (lines : List Line) (hdr : Line) (rest : List Line)
     (hhdr : ntClassify ev hdr = .stop)
     (hok : ∀ s ∈ subs, s.OK t)
     (hrepr : ∀ b, env.reprV (.bytes b) = reprBytes b)
     (hev : ∀ tok b, evalBytesLiteral tok = some b → ev tok = some (.val (.bytes b)))
-    (hother : ∀ s ∈ subs, ∀ v ∈ s.out.vals, (∀ b, v ≠ .bytes b) → ReprOK env ev v)
-    (hflag : ∀ s ∈ subs, ∀ v ∈ s.out.vals, ∀ b, v = .bytes b → FlagTokOK env ev v)
+    (hother : ∀ s ∈ subs, ∀ v ∈ s.out.vals, (∀ b, v ≠ .bytes b) → ReprCore env ev v)
     (hl : nestedTextLines env (subs.map (·.out)) (subs.map (·.tree)) = .ok lines) :
     nestedTextToFlat ev (lines ++ hdr :: rest) = .ok (hdr :: rest, subs.map fun s => s.out.vals.map PyLit.val) :=
   C09_nested_text_to_flat_partial env ev t subs lines hdr rest hhdr hok
-    (fun s hs v hv => C09_repr_ok_of_bytes_model env ev hrepr hev v (hother s hs v hv) (hflag s hs v hv)) hl
+    (fun s hs v hv => C09_repr_core_of_bytes_model env ev hrepr hev v (hother s hs v hv)) hl
 
 -- the case the hypothesis was feared for: b" b'x" - its repr contains ` b'`, not ` b"`
 example : reprBytes [0x20, 0x62, 0x27, 0x78] = ['b', '"', ' ', 'b', '\'', 'x', '"'] := by decide
 example : BytesTok ['b', '"', ' ', 'b', '\'', 'x', '"'] := C09_repr_bytes_tok [0x20, 0x62, 0x27, 0x78]
 -- both quotes: the quote in use is escaped, so ` b'` cannot appear unescaped: b' b\'"'
 example : reprBytes [0x20, 0x62, 0x27, 0x22] = ['b', '\'', ' ', 'b', '\\', '\'', '"', '\''] := by decide
+
+-- the hypotheses `hrepr` / `hev` of the corollaries are satisfiable together: print character values with `reprBytes`, evaluate
+-- bytes tokens with `evalBytesLiteral`
+example : ∃ (env : TextEnv) (ev : Line → Option PyLit), (∀ b, env.reprV (.bytes b) = reprBytes b) ∧
+    (∀ tok b, evalBytesLiteral tok = some b → ev tok = some (.val (.bytes b))) :=
+  ⟨{ reprV := fun v => match v with | .bytes b => reprBytes b | _ => ['N', 'o', 'n', 'e'],
+     reprFlag := fun _ _ => [], name := fun _ => [], isFlag := fun _ => false },
+   fun tok => (evalBytesLiteral tok).map fun b => .val (.bytes b),
+   fun _ => rfl, fun tok b h => by simp [h]⟩
 
 end Bufr
